@@ -668,3 +668,74 @@ fn seg_calc_pipe_n3() {
     assert!(inv(&s), "C10: calc_pipe leaves the accounting alone");
     std::mem::forget(s);
 }
+
+// ---- accessors for the tier-C harnesses (fields are private to stream_tx_segments.rs) ------------
+
+/// sizes of the first 4 queued segments (0 = absent)
+pub fn verif_sizes(s: &Segments) -> [usize; 4] {
+    let mut out = [0usize; 4];
+    let mut i = 0;
+    while i < 4 {
+        if i < s.segments.len() {
+            out[i] = s.segments[i].payload_size;
+        }
+        i += 1;
+    }
+    out
+}
+/// send counts of the first 4 queued segments
+pub fn verif_send_counts(s: &Segments) -> [usize; 4] {
+    let mut out = [0usize; 4];
+    let mut i = 0;
+    while i < 4 {
+        if i < s.segments.len() {
+            out[i] = s.segments[i].send_count();
+        }
+        i += 1;
+    }
+    out
+}
+pub fn verif_probe_flags(s: &Segments) -> [bool; 4] {
+    let mut out = [false; 4];
+    let mut i = 0;
+    while i < 4 {
+        if i < s.segments.len() {
+            out[i] = s.segments[i].is_mtu_probe;
+        }
+        i += 1;
+    }
+    out
+}
+pub fn verif_snd_una(s: &Segments) -> SeqNr {
+    s.snd_una
+}
+/// Queue of N segments with the given concrete sizes, send status per `sent_mask` bit (1 = transmitted once
+/// at `ts_ms`), contiguous from stream offset 0, first sequence number `snd_una`.
+pub fn segments_with<const N: usize>(snd_una: u16, sizes: [usize; N], sent_mask: u8, ts_ms: u64, probe_last: bool) -> Segments {
+    let mut v: Vec<Segment> = Vec::with_capacity(N + 4);
+    let mut off = 0u64;
+    let mut total = 0usize;
+    let mut i = 0;
+    while i < N {
+        let sent = if (sent_mask >> i) & 1 == 1 { SentStatus::SentTime(at_ms(ts_ms)) } else { SentStatus::NotSent };
+        v.push(Segment { payload_size: sizes[i], payload_offset_absolute: off, is_delivered: false, sent,
+            is_mtu_probe: probe_last && i + 1 == N, is_lost: false, is_expired: false, has_sacks_after_it: false });
+        off += sizes[i] as u64;
+        total += sizes[i];
+        i += 1;
+    }
+    Segments { segments: VecDeque::from(v), len_bytes: total, offset: off, removed_offset: 0, sack_depth: 0, last_sack_empty: false, snd_una: SeqNr(snd_una) }
+}
+
+/// Contract stub for `pop_expired_mtu_probe` (tier-C cut; the real function is decided by SEG.popx*):
+/// returns the harness-chosen outcome without touching the queue. 0 = Empty, 1 = NotExpired.
+pub static mut POPX_RESULT: u8 = 0;
+pub static mut POPX_CALLS: usize = 0;
+impl Segments {
+    pub fn stub_pop_expired_mtu_probe(&mut self, _retransmit_timed_out: bool, _max_probe_retransmissions: usize) -> PopExpiredProbe {
+        unsafe {
+            POPX_CALLS += 1;
+            if POPX_RESULT == 1 { PopExpiredProbe::NotExpired } else { PopExpiredProbe::Empty }
+        }
+    }
+}
